@@ -2,7 +2,7 @@ PROPS["C17"] = prop(
     "exploration",
     "rapid-generated node sets/keys against the placement laws of the hash ring; rapid-generated memberships against the ring-signature gate of "
     "Cluster.Route/TopicMaster; rapid-generated delivery/loss/reorder/partition schedules over the real Cluster election and health-check code "
-    "(n = 3..5 Cluster values, real rpc.Client over a harness codec) on a virtual clock (testing/synctest), safety invariants after every event",
+    "(n = 3..5 Cluster values, real rpc.Client over a harness codec) on a virtual clock (testing/synctest), safety invariants after every event; thorough tier: the same generators and oracles also run under Go's native coverage-guided fuzzer (rapid.MakeFuzz, 60 s per target, all cores)",
     "ring unit: non-trivial = at least 3 node names and at least 100 keys; gate unit: at least 3 configured nodes and at least 20 topics; "
     "election unit: non-trivial = a schedule in which at least 2 different nodes started an election and at least 1 message was lost or delivered out of order; "
     "distinct = distinct case data (FNV-64 of the JSON case)",
@@ -17,7 +17,7 @@ PROPS["C17"] = prop(
     "in class ended-early-select-race). Health checks queued at a node that is inside its own health round are not judged for adoption. Node restarts (lost state) are outside the statement. "
     "Cluster.TopicProxy carries no ring signature and is not gated by the code; it is not judged. Topic traffic between nodes (proxy/master sessions) is outside this simulator.",
     "5/C17", "cluster-sim",
-    [Unit("TestC17Ring", "server/ringhash", quick=6000, thorough=250000, shards_quick=4, shards_thorough=16),
+    [Unit("TestC17Ring", "server/ringhash", quick=6000, thorough=250000, shards_quick=4, shards_thorough=16, fuzz="FuzzC17Ring", fuzztime=60),
      Unit("TestC17Gate", "server", quick=2500, thorough=100000, shards_quick=2, shards_thorough=8),
      Unit("TestC17Election", "server", quick=350, thorough=10000, shards_quick=16, shards_thorough=16, shrink=60,
           timeout_quick=900, timeout_thorough=7200)],
